@@ -421,7 +421,14 @@ func runHistory(hno int, tr transport, w *world, seq []symbol, nconn int, harnes
 	run.Eval()
 	peers := make([]*peer, nconn)
 	for i := range peers {
-		peers[i] = &peer{me: refctl.NewIdentity(fmt.Sprintf("ctl-%d-%d-%s", hno, i, strings.Repeat("x", w.rnd.Intn(20))), w.rnd)}
+		// every fifth name ends in bytes a text routine would strip (NUL, blank, line break) or starts with a blank: the
+		// name that is stored is the name that was delivered and signed, byte for byte
+		tail := ""
+		if (hno+i)%5 == 3 {
+			tail = []string{"\x00", "\x00\x00", " ", "\n", "\r\n", "\t"}[(hno/5+i)%6]
+			run.Count("controller_names_with_a_tail_a_text_routine_would_strip", 1)
+		}
+		peers[i] = &peer{me: refctl.NewIdentity(fmt.Sprintf("ctl-%d-%d-%s%s", hno, i, strings.Repeat("x", w.rnd.Intn(20)), tail), w.rnd)}
 	}
 	prev, err := tr.entities()
 	if err != nil {
